@@ -92,9 +92,21 @@ class Sizes:
             if isinstance(s, ast.Try) and all(h.body and isinstance(h.body[-1], ast.Raise) for h in s.handlers) and not s.finalbody:
                 # try: return <size> / except ...: raise ...   -> the size on the non-failing path
                 return self._size_body(list(s.body) + list(s.orelse) + body[i + 1:], cls, field, st)
+            if isinstance(s, ast.With):
+                # a context manager around the computation (error conversion): the size on the non-failing path is the body's
+                return self._size_body(list(s.body) + body[i + 1:], cls, field, st)
             if isinstance(s, ast.If):
                 # if self.name in [...]: return A else: return B
                 t = s.test
+                if isinstance(t, ast.UnaryOp) and isinstance(t.op, ast.Not):
+                    # if not <test>: A else: B   ==   if <test>: B else: A
+                    flipped = ast.If(test=t.operand, body=s.orelse or [], orelse=s.body)
+                    return self._size_body([flipped] + body[i + 1:], cls, field, st)
+                if (isinstance(t, ast.Compare) and len(t.ops) == 1 and isinstance(t.ops[0], (ast.NotIn, ast.NotEq))
+                        and unparse(t.left).startswith('self.')):
+                    pos_op = ast.In() if isinstance(t.ops[0], ast.NotIn) else ast.Eq()
+                    flipped = ast.If(test=ast.Compare(left=t.left, ops=[pos_op], comparators=t.comparators), body=s.orelse or [], orelse=s.body)
+                    return self._size_body([flipped] + body[i + 1:], cls, field, st)
                 if (isinstance(t, ast.Compare) and len(t.ops) == 1 and isinstance(t.ops[0], (ast.In, ast.Eq))
                         and unparse(t.left).startswith('self.')):
                     attr = unparse(t.left)[5:]
@@ -124,11 +136,13 @@ class Sizes:
             return self.lin(('call', 'len', (self._sym_self(e.args[0], field),), ()), st)
         if isinstance(e, ast.Call) and dotted(e.func) == 'struct.calcsize' and len(e.args) == 1:
             return self.lin(('call', 'struct.calcsize', (self._sym_self(e.args[0], field),), ()), st)
-        if isinstance(e, ast.Subscript) and isinstance(e.value, ast.Name) and e.value.id in local:
+        if isinstance(e, ast.Subscript) and isinstance(e.value, ast.Name) and (e.value.id in local or isinstance(self.facts.consts.get(e.value.id), dict)):
             try:
-                table = fold(local[e.value.id])
+                table = fold(local[e.value.id], self.facts.consts) if e.value.id in local else self.facts.consts[e.value.id]
             except NotConstant:
                 raise AnalysisError('size() of {}: table not literal'.format(cls))
+            if not isinstance(table, dict) or not all(isinstance(v, int) and not isinstance(v, bool) for v in table.values()):
+                raise AnalysisError('size() of {}: size table is not a dict of integers'.format(cls))
             key = self._sym_self(e.slice, field)
             if is_const(key):
                 if key[1] not in table:
@@ -212,6 +226,22 @@ class Sizes:
                     return base + per.scale(n_iter.const)
             if x[0] == 'comp' and not x[5]:
                 return self.lin(('call', 'len', (x[4],), ()), st)
+            if x[0] == 'ifexp':
+                a, b = self.lin(('call', 'len', (x[2],), ()), st), self.lin(('call', 'len', (x[3],), ()), st)
+                if a == b:
+                    return a
+            if x[0] == 'mcall' and x[2] == 'join' and is_const(x[1]) and x[1][1] in (b'', '') and len(x[3]) == 1:
+                # len(b''.join(parts)) = sum of the parts' lengths
+                parts = x[3][0]
+                if parts[0] in ('list', 'tuple'):
+                    total = LinS()
+                    for e in parts[1]:
+                        total = total + self.lin(('call', 'len', (e,), ()), st)
+                    return total
+                if parts[0] == 'comp' and not parts[5]:
+                    per = self.lin(('call', 'len', (parts[2],), ()), st)
+                    if per.is_const():
+                        return self.lin(('call', 'len', (parts[4],), ()), st).scale(per.const)
             # assert len(x) == y on this path
             if st is not None:
                 for ev in st.events:
@@ -225,6 +255,11 @@ class Sizes:
             n = struct_size(v[2][0][1])
             if n is not None:
                 return LinS(const=n)
+        if k == 'call' and v[1] == 'struct.calcsize' and len(v[2]) == 1 and v[2][0][0] == 'ifexp':
+            a = self.lin(('call', 'struct.calcsize', (v[2][0][2],), ()), st)
+            b = self.lin(('call', 'struct.calcsize', (v[2][0][3],), ()), st)
+            if a == b:
+                return a
         return LinS({v: 1})
 
     def size(self, obj, st):
@@ -378,29 +413,76 @@ def account(path, result_list, labels_name='labels'):
     return acc
 
 
-def pipeline(facts):
-    """Ordered pass calls of `assemble`: [(function name, guard ('always' | 'compress' | text), call node, arg names)]."""
-    fn = facts.funcs.get('assemble')
-    if fn is None:
-        raise AnalysisError('anchor vanished: assemble')
-    out = []
+_pipeline_cache = {}
 
-    def visit(body, guard):
-        for st in body:
-            if isinstance(st, ast.Assign) and isinstance(st.value, ast.Call) and isinstance(st.value.func, ast.Name) \
-                    and st.value.func.id in facts.funcs:
-                out.append((st.value.func.id, guard, st, [unparse(a) for a in st.value.args], st.targets[0]))
-            elif isinstance(st, ast.If):
-                try:
-                    const = fold(st.test)
-                except NotConstant:
-                    const = None
-                if const is not None:
-                    # constant guard: the arm is either always or never part of the pipeline
-                    visit(st.body if const else st.orelse, guard)
-                    continue
-                visit(st.body, unparse(st.test) if guard == 'always' else guard + ' and ' + unparse(st.test))
-                if st.orelse:
-                    visit(st.orelse, 'not ' + unparse(st.test))
-    visit(fn.body, 'always')
+
+def pass_pipeline(facts):
+    """passorder.Pipeline of `assemble` (cached per Facts)."""
+    from .passorder import Pipeline
+    key = id(facts)
+    if key not in _pipeline_cache:
+        _pipeline_cache[key] = (facts, Pipeline(facts))
+    return _pipeline_cache[key][1]
+
+
+def item_passes(facts, calls):
+    """[(pass name, PassCall, the item-list argument)] for the recorded calls of one evaluated path that receive the running item
+    list.  A pass reached through thin module-level wrappers (`def resolve_strings(items): return convert_items(..., items, ...)`)
+    is named after the outermost wrapper."""
+    out = []
+    for c in calls:
+        if c.mapped:
+            continue
+        its = [a for a in c.args if isinstance(a, tuple) and a and a[0] == 'items']
+        if not its:
+            continue
+        name = c.via[0] if c.via else c.name
+        if name not in facts.funcs:
+            continue
+        out.append((name, c, its[0]))
+    return out
+
+
+def pipeline(facts):
+    """Ordered item passes of `assemble`: [(function name, guard ('always' | 'compress' | 'not compress'), call node, [argument
+    texts], None)].  Derived by evaluating the body of assemble for compress = False / True (passorder), so it does not matter
+    whether the passes are spelled as a straight line of assignments, a list of passes applied in a loop, or helper functions.
+    A pass is a recorded call of a module-level function that receives the running item list."""
+    import difflib
+    from .passorder import show as pshow
+    pl = pass_pipeline(facts)
+    def union(paths):
+        """Supersequence of the pass sequences of several paths: [(entry, on every path?)]."""
+        merged = None
+        for calls in paths:
+            cur = [(e, True) for e in item_passes(facts, calls)]
+            if merged is None:
+                merged = cur
+                continue
+            sm_ = difflib.SequenceMatcher(a=[e[0] for e, _ in merged], b=[e[0] for e, _ in cur], autojunk=False)
+            nxt = []
+            for tag, i1, i2, j1, j2 in sm_.get_opcodes():
+                if tag == 'equal':
+                    nxt.extend(merged[i1:i2])
+                else:
+                    nxt.extend((e, False) for e, _ in merged[i1:i2])
+                    nxt.extend((e, False) for e, _ in cur[j1:j2])
+            merged = nxt
+        return merged or []
+    a, b = union(pl.paths[False]), union(pl.paths[True])
+    out = []
+    sm = difflib.SequenceMatcher(a=[e[0] for e, _ in a], b=[e[0] for e, _ in b], autojunk=False)
+
+    def row(entry, guard):
+        (name, c, x), everywhere = entry
+        # a pass that runs on some but not all evaluated paths with the same compress value depends on something else as well
+        return (name, guard if everywhere else guard + ' and <another condition>', c.node, [pshow(y) for y in c.args], None)
+    for tag, i1, i2, j1, j2 in sm.get_opcodes():
+        if tag == 'equal':
+            out.extend(row((e, ea and eb), 'always') for (e, eb), (_, ea) in zip(b[j1:j2], a[i1:i2]))
+        else:
+            out.extend(row(c, 'not compress') for c in a[i1:i2])
+            out.extend(row(c, 'compress') for c in b[j1:j2])
+    if not out:
+        raise AnalysisError('anchor vanished: no item pass found in assemble')
     return out
